@@ -305,3 +305,21 @@ Lemma crash_reload_example :
   bl_exists (load_initial [] [] (disk_files d')) crash_probe = false /\
   load_initial [] [] (disk_files d') = load_initial [] [] (disk_files d).
 Proof. vm_compute. repeat split; reflexivity. Qed.
+
+(* ---------------------------------------------------------------- the background re-read in between *)
+
+(* disk_converges speaks of API calls only.  The code has one more actor: refreshRemote
+   re-reads the directory into the live list one second after New.  Landing between a
+   Remove's mutation and its persist() it undoes the removal in memory only: every call
+   has returned, nothing is outstanding, lastPersisted = version, and yet the file is
+   not the memory (finding blocklist-refresh-readds-removed). *)
+Lemma refresh_convergence_refuted_lemma :
+  let x := [120; 46; 116; 101; 115; 116; 46] in
+  let s0 := mk_sys (mk_bl [x] [] []) 1 1 (Some (lines_bytes [header; x])) [] in
+  let s1 := snd (sys_mutate (OpRemove x) [] [] s0) in
+  let s3 := sys_persist 0 (sys_refresh s1) in
+  s_pending s3 = [] /\ s_last s3 = s_version s3 /\
+  s_local s3 = Some (lines_bytes [header]) /\ bm (s_mem s3) = [x] /\
+  (* without the re-read the same schedule converges *)
+  bm (s_mem (sys_persist 0 s1)) = [] /\ s_local (sys_persist 0 s1) = Some (lines_bytes [header]).
+Proof. vm_compute. repeat split; reflexivity. Qed.
